@@ -18,6 +18,7 @@ import sys
 import traceback
 
 import casadi as ca
+import numpy as np
 
 from vk.paths import REPO
 from vk import families
@@ -258,6 +259,28 @@ def op_models():
     return [(f"ops[{i // 12}]", families.batch_model(OP_EXPRS[i:i + 12]), "M") for i in range(0, len(OP_EXPRS), 12)]
 
 
+# ---- (E) models on which the simplification options have something to do (thorough tier, every option set) ----
+def option_models():
+    ms = []
+
+    def add(i, decl, eqs, pre=""):
+        ms.append((f"opt[{i}]", pre + "model M\n" + decl + "equation\n" + eqs + "end M;\n", "M"))
+
+    add("const-arr-1d", "  constant Real g[3] = {1, 2, 3};\n  Real x[3];\n", "  x = 2 * g;\n")
+    add("const-arr-2d", "  constant Real G[2,2] = {{1, 2}, {3, 4}};\n  Real x[2,2];\n", "  x = 2 * G;\n")
+    add("param-arr-1d", "  parameter Real g[3] = {1, 2, 3};\n  Real x[3];\n", "  x = 2 * g;\n")
+    add("param-arr-2d", "  parameter Real G[2,2] = {{1, 2}, {3, 4}};\n  Real x[2,2];\n", "  x = 2 * G;\n")
+    add("const-fill", "  constant Real G[2,2] = fill(1.5, 2, 2);\n  Real x[2,2];\n", "  x = G + G;\n")
+    add("const-assign-loop", "  Real y[2];\n  Real x;\n  Real z;\n", "  for i in 1:2 loop\n    y[i] = i;\n  end for;\n  x = 3;\n  z = x + y[1];\n")
+    add("const-assign-vec", "  Real y[2];\n  Real x;\n  Real z;\n", "  y = {1, 2};\n  x = 3;\n  z = x + y[1];\n")
+    add("const-assign-scalar", "  Real x;\n  Real z;\n  Real w;\n", "  x = 3;\n  0 = z;\n  w = x + z + time;\n")
+    add("dep-values", "  parameter Real p = 2;\n  parameter Real q = 3 * p;\n  constant Real k = 4;\n  constant Real k2 = k * 2;\n"
+        "  Real x(max = q, min = -k2);\n  Real y(nominal = q + k);\n", "  x = q * time + k2;\n  der(y) = p * x - k;\n")
+    add("alias-chain", "  Real a, b, c;\n  Real v[2], w[2];\n  input Real u;\n", "  a = b;\n  c = -a;\n  b = u * time;\n  v = w;\n"
+        "  for i in 1:2 loop\n    w[i] = i * u;\n  end for;\n")
+    return ms
+
+
 # models of the existing families that the quick tier also compiles with the other options fixed
 BASE_MODELS_QUICK = ("attr-fun", "delay", "init", "init-if", "for-1d[3]", "for-step[1:2:3]", "for-2d", "for-two-eq", "for-der", "der-vec",
                      "vec-ops", "vec-neg-if", "mat-ops", "mat-transpose", "fun-if", "fun-for", "fun-two-out", "ifeq-else", "ifeq-nested-expr",
@@ -268,7 +291,20 @@ EDIT_BASE_MODELS_THOROUGH = ("for-1d[3]", "attr-fun", "fun-attr[max|state-max]",
 EDIT_BASE_SCRIPTS = ("attrs", "scale-eq", "append-init", "two-rounds")
 
 
-def describe(model):
+def _attr_value(x):
+    """Attribute value as numbers (used for the value-replacing option sets, where the same value legitimately
+    shows up as 1 / 1.0 / a symbol-free MX depending on where in simplify() it was substituted)."""
+    if isinstance(x, ca.MX):
+        if ca.symvar(x):
+            return "<MX>"
+        x = ca.evalf(x)
+    try:
+        return [round(float(e), 12) for e in np.array(ca.DM(x), dtype=float).flatten(order="F")]
+    except Exception:
+        return repr(x)
+
+
+def describe(model, numeric=False):
     d = {}
     for cat in ["states", "der_states", "alg_states", "inputs", "constants", "parameters"]:
         d[cat] = [(v.symbol.name(), tuple(v.symbol.shape), v.python_type.__name__,
@@ -279,6 +315,9 @@ def describe(model):
             row = []
             for a in ["value", "start", "min", "max", "nominal", "fixed"]:
                 x = getattr(v, a)
+                if numeric:
+                    row.append(repr(_attr_value(x)))
+                    continue
                 row.append("<MX>" if isinstance(x, ca.MX) and not x.is_constant() else repr(
                     ca.DM(x) if isinstance(x, ca.MX) else x))
             d[cat + ":attrs"].append(row)
@@ -300,6 +339,20 @@ BASES = {
     "": {},
     "ev": {"expand_vectors": True},
 }
+# thorough tier: the simplification options one at a time, and each together with expand_vectors (whose position inside
+# simplify() depends on expand_mx, so every other step sees vectors under one representation and scalars under the other)
+_SIMP = {
+    "alias": {"detect_aliases": True},
+    "rpe": {"replace_parameter_expressions": True, "replace_constant_expressions": True},
+    "eca": {"eliminate_constant_assignments": True},
+    "rcv": {"replace_constant_values": True, "replace_parameter_values": True},
+    "rpv": {"resolve_parameter_values": True},
+    "fse": {"factor_and_simplify_equations": True},
+    "aff": {"reduce_affine_expression": True},
+}
+BASES_THOROUGH = dict(_SIMP, **{"ev+" + k: dict(v, expand_vectors=True) for k, v in _SIMP.items()})
+# under these option sets attribute values are compared as numbers (see _attr_value)
+NUMERIC_BASES = set(BASES_THOROUGH)
 
 
 def with_base(base, cfg):
@@ -511,7 +564,7 @@ def work(item):
     try:
         try:
             base = build(text, cls, with_base(bname, CONFIGS[0]))
-            d0 = describe(base)
+            d0 = describe(base, bname in NUMERIC_BASES)
             names = modelio.model_in_names(base)
             pnames = [names[6]]
             fns0 = {
@@ -532,10 +585,10 @@ def work(item):
             try:
                 m = build(text, cls, cfg)
             except Exception as e:
-                col.violation(case + ":raises", f"configuration {cfg} raises {type(e).__name__}: {str(e)[:100]} but the default configuration compiles",
+                col.violation(case + ":raises", f"configuration {cfg} raises {type(e).__name__}: {str(e)[:100]} but the reference configuration (all three options True) compiles",
                               {"model_text": text, "options": cfg})
                 continue
-            d1 = describe(m)
+            d1 = describe(m, bname in NUMERIC_BASES)
             if d1 != d0:
                 diff = [k for k in d0 if d0[k] != d1.get(k)]
                 col.violation(case + ":variables", f"variable lists/metadata differ in {diff}",
@@ -576,8 +629,12 @@ def main():
         ex = families.scalar_exprs("quick")
         items += [(f"scalar{i}", families.batch_model(ex[i:i + 12]), "M") for i in range(0, len(ex), 12)]
     new = fun_attr_models(args.tier) + fun_range_models(args.tier) + guard_models(args.tier)
+    new_quick = fun_attr_models("quick") + fun_range_models("quick") + guard_models("quick")
     old_ids = {m[0] for m in items}
     items += new
+    if args.tier == "thorough":
+        items += option_models()
+        BASES.update(BASES_THOROUGH)
     # every model under the default remaining options; then selected ones with the remaining options fixed otherwise
     pitems = [m + ("",) for m in items if not (args.tier == "quick" and m[0].startswith("guard[") and not GUARD_QUICK_DEFAULT_BASE(m[0]))]
     for bname in BASES:
@@ -586,9 +643,12 @@ def main():
         if args.tier == "quick":
             chosen = [m for m in items if m[0] in BASE_MODELS_QUICK or m[0].startswith("repo:")] + op_models()
             chosen += [m for k, m in enumerate(new) if m[0].startswith(("guard[", "fun-range[horner|")) or (m[0].startswith("fun-attr[") and k % 3 == 0)]
-        else:
+        elif bname == "ev":
             old = [m for m in items if m[0] in old_ids]
             chosen = [m for k, m in enumerate(old) if k % 3 == 0 or m[0] in BASE_MODELS_QUICK or m[0].startswith("repo:")] + new + op_models()
+            chosen += option_models()
+        else:
+            chosen = [m for m in items if m[0] in BASE_MODELS_QUICK or m[0].startswith("repo:")] + op_models() + option_models() + new_quick[::3]
         pitems += [m + (bname,) for m in chosen]
     eitems = edit_items(items, args.tier)
     for col in run_parallel(work, pitems + eitems, args.jobs):
